@@ -235,11 +235,11 @@ fn format_time(micros: i64) -> String {
 }
 
 fn format_timestamp(micros: i64) -> String {
-    let seconds = micros / 1_000_000;
-    let micros_part = (micros % 1_000_000).abs();
+    let seconds = micros.div_euclid(1_000_000);
+    let micros_part = micros.rem_euclid(1_000_000);
 
-    let days = seconds / 86400;
-    let time_of_day = (seconds % 86400).abs();
+    let days = seconds.div_euclid(86400);
+    let time_of_day = seconds.rem_euclid(86400);
 
     let jdn = 2440588 + days as i32;
     let (year, month, day) = jdn_to_ymd(jdn);
